@@ -94,7 +94,7 @@ func runC16(c *Ctx) {
 		{bases: []string{"localhost:9000"}},
 		{bases: []string{".dotted.base."}},
 		{hostBucket: true, bases: []string{"s3.example.com"}},
-		{bases: []string{"localhost", "s3.localhost"}},          // an earlier base is a suffix of a later one
+		{bases: []string{"localhost", "s3.localhost"}}, // an earlier base is a suffix of a later one
 		{bases: []string{"s3.localhost", "localhost"}},
 		{bases: []string{"example.com", "s3.example.com", "eu.s3.example.com"}},
 		{},
